@@ -1,5 +1,6 @@
 """C49 the command-line interface produces valid runcards and the library's EKO."""
 
+import copy
 import json
 import math
 import os
@@ -23,7 +24,7 @@ RULE = (
     "write theory.yaml + operator.yaml that yaml.safe_load and TheoryCard/OperatorCard.from_dict turn into cards equal to "
     "ekobox.cards.example with the documented modifications (order (1,0), init (1.65,4), mugrid [(sqrt(1e5),5)]). 'run': "
     "a generated tiny valid card pair dumped with ekobox.cards.dump, the three argument forms `eko run DIR`, `eko run TH "
-    "OP`, `eko run TH OP OUT` (drawn file names and output locations, paths absolute or relative to the working directory); the archive must appear at the documented place "
+    "OP`, `eko run TH OP OUT` (drawn file names and output locations, paths absolute or relative to the working directory; in half of the cases other card-like files with the same stem - other extension, .orig, ~ - and different valid content lie next to the cards; in half of the cases the card paths are symbolic links to files kept in another folder, in a quarter (one-argument form) the run folder is reached through a directory link); the archive must appear at the documented place "
     "and its operators and errors must be bitwise equal to eko.solve on the cards loaded from the same files. The CLI "
     "runs in a sub-process because its default destination is computed from the cwd at import time. Non-trivial = a "
     "directory without runcards/ or a non-existing destination (example), any non-example card (run); distinct by (kind, "
@@ -32,6 +33,7 @@ RULE = (
 ASSUMPTIONS = [
     "the CLI is invoked as `python -c 'from ekobox.cli import command; command()'` with $VERIF_REPO/src first on PYTHONPATH (same entry point as the installed `eko` script) so that scratch copies can be tested",
     "card equality is field-by-field on the plain-data form (numpy scalars/arrays converted to Python numbers/lists)",
+    "the documented place of the archive is taken relative to the paths as given on the command line (a linked card's folder is the folder of the link)",
     "bitwise comparison of operators (same process settings, NUMBA_DISABLE_JIT=1, one integration core)",
 ]
 LEVEL_TEXT = (
@@ -44,7 +46,7 @@ CLI = "import sys; from ekobox.cli import command; sys.exit(command())"
 
 def budget(tier):
     if tier == "quick":
-        return dict(max_examples=32, shards=16, wall_s=90, shrink_s=0)
+        return dict(max_examples=48, shards=16, wall_s=120, shrink_s=0)
     return dict(max_examples=240, shards=16, wall_s=1200, shrink_s=0)
 
 
@@ -76,11 +78,15 @@ def strategy(tier):
         card["alphas"] = float(ru.lo_alpha(draw(st.floats(0.1, 0.3)), lowest, card["ref"][0]))
         return {
             "kind": "run",
-            "form": draw(st.sampled_from((1, 2, 3))),
+            "form": draw(st.sampled_from((1, 2, 2, 3))),
             "th_name": draw(st.sampled_from(("theory.yaml", "t.yaml", "my theory.yml"))),
             "op_name": draw(st.sampled_from(("operator.yaml", "o.yaml", "sub/op card.yaml"))),
             "out_name": draw(st.sampled_from(("eko.tar", "res/out.tar", "x y.tar"))),
             "relative": draw(st.booleans()),
+            # bystanders: other card-like files with the same stem (other extension / backup suffix) and different, valid
+            # content next to the cards; links: cards (or the run folder) reached through symbolic links
+            "decoys": draw(st.booleans()),
+            "link": draw(st.sampled_from((None, "file", "file", "dir"))),
             "card": card,
         }
 
@@ -211,11 +217,35 @@ def check_run(case, d):
     if case.get("relative"):  # paths given relative to the working directory, as a user at a shell would
         args = [args[0]] + [os.path.relpath(a, cwd) for a in args[1:]]
         res.classes.append("paths=relative")
+    link = case.get("link")
+    real_th, real_op = th_f, op_f
+    if link == "file":  # the card paths are symbolic links to files kept in another folder
+        shared = cwd / "shared store"
+        shared.mkdir()
+        real_th, real_op = shared / ("T-" + th_f.name), shared / ("O-" + op_f.name)
+        res.classes.append("cards=symlinked-files")
+    elif link == "dir" and form == 1:  # the run folder is reached through a directory link
+        real_dir = cwd / "real cards"
+        real_dir.mkdir()
+        rc.rmdir()  # created empty above
+        os.symlink(real_dir, rc, target_is_directory=True)
+        res.classes.append("folder=symlinked")
     try:
-        cards.dump(th.raw, th_f)
-        cards.dump(op.raw, op_f)
+        cards.dump(th.raw, real_th)
+        cards.dump(op.raw, real_op)
+        if case.get("decoys"):
+            dth, dop = copy.deepcopy(th.raw), copy.deepcopy(op.raw)
+            dth["couplings"]["alphas"] = float(dth["couplings"]["alphas"]) * 0.9
+            dop["mugrid"] = [[float(m) * 1.37, int(n)] for m, n in dop["mugrid"]]
+            for f, raw in ((th_f, dth), (op_f, dop)):
+                for other in (f.with_suffix(".yml" if f.suffix == ".yaml" else ".yaml"), f.with_name(f.name + ".orig"), f.with_name(f.name + "~")):
+                    cards.dump(raw, other)
+            res.classes.append("bystander-cards=yes")
     except Exception as e:  # noqa: BLE001 - serialisation of cards is C40's verdict
         return CaseResult(discarded=exc_bucket("card dump failed (decided by C40)", e))
+    if link == "file":
+        os.symlink(os.path.relpath(real_th, th_f.parent), th_f)
+        os.symlink(os.path.relpath(real_op, op_f.parent), op_f)
     p = cli(args, cwd)
     # the library on the cards loaded from the same files
     th2 = TheoryCard.from_dict(yaml.safe_load(th_f.read_text()))
